@@ -115,6 +115,12 @@ impl Directory {
     }
 
     fn sync_directory(&self) -> io::Result<()> {
+        // Verification hook: the directory fsync is an I/O leaf (open + fdatasync + close on the
+        // directory); under the guard it is skipped.
+        #[cfg(quickwit_oss_mrecordlog_verif)]
+        if crate::verif_io::skip_dir_fsync() {
+            return Ok(());
+        }
         let mut open_opts = OpenOptions::new();
         // Linux needs read to be set, otherwise returns EINVAL
         // write must not be set, or it fails with EISDIR
